@@ -539,6 +539,10 @@ func fbb.(*Message).ReadFrom(m, r) (err)
   # C09 reader side of the framing: after the header block, the body is BodySize() bytes (the
   # Body header) plus its terminator, then one section per File header, in header order, each
   # of the size its header declares (the number before the first blank); all from one reader
+  # every File header gets its File object (a malformed one carries its error): nothing that
+  # later walks the attachments meets a nil entry
+  ensures every-attachment-allocated [C03 C09]: err == nil ==> forall k :: 0 <= k && k < len(m.files) ==> m.files[k] != nil
+  loop 0 invariant allocated [C03 C09]: m != nil && (forall k :: 0 <= k && k <= $idx ==> m.files[k] != nil) && $idx + 1 <= len(m.files)
   call bufio.NewReader set gRd := $r0
   call fbb.trimLeftSpace requires same-reader [C09]: $0 == gRd
   call textproto.NewReader requires same-reader [C09]: $0 == gRd
